@@ -19,7 +19,8 @@ def theorem_names(path):
             ns.pop(); continue
         m = re.match(r"^(?:@\[[^\]]*\]\s*)?(private\s+|protected\s+)?(?:theorem|lemma)\s+([A-Za-z0-9_.?!']+)", line)
         if m and not (m.group(1) or "").startswith("private"):
-            full = ".".join(ns + [m.group(2)])
+            name = m.group(2)
+            full = name[len("_root_."):] if name.startswith("_root_.") else ".".join(ns + [name])
             out.append(full)
     return out
 
